@@ -15,12 +15,15 @@ PY
 if [ -x replay/build.sh ]; then replay/build.sh; fi
 # second flavour of the witness binary (nightly-only containers of dryoc; used by the `serde` configuration)
 VERIF_WITNESS_FLAVOUR=nightly python3 replay/run_witness.py C16 --tier quick >/dev/null 2>&1 || true
+VERIF_WITNESS_FLAVOUR=simd python3 replay/run_witness.py C12 --tier quick >/dev/null 2>&1 || true
 # warm the Kani build cache (dependency artefacts only; every check re-snapshots the crate itself)
 python3 - <<'PY'
 import sys
 sys.path.insert(0, 'tools')
 import engine
 for u in engine.kani_units():
+    if u.get('mode', 'always') != 'always' and u['name'] != 'vk_pad16':
+        continue   # stand-by units run only when needed (one cheap one is run here to compile Kani's dependencies)
     r = engine.run_kani(u)
     print('kani warm-up', u['name'], r['verdict'], '%.0fs' % r['wall_s'])
 PY
